@@ -34,6 +34,13 @@ type c11Case struct {
 	ID    int             `json:"id"`
 	Cfg   json.RawMessage `json:"cfg"`
 	Files []c11File       `json:"files"`
+	// Session: page loads with the same session name are served by one viewer
+	// (one Server value, one -config file) in this process, in the order of
+	// the cases; the config file is rewritten before every load, the way a
+	// newer upload configuration replaces the older one while the viewer runs.
+	// The config is obtained the way the index page obtains it
+	// (Server.configAt("latest")).
+	Session string `json:"session"`
 }
 
 func TestVerifC11Viewer(t *testing.T) {
@@ -52,7 +59,22 @@ func TestVerifC11Viewer(t *testing.T) {
 			rt.Out(rt.M{"kind": "file", "id": c.ID, "infra": err.Error()})
 			continue
 		}
-		cfg := config.NewConfig(&uc)
+		var cfg *config.Config
+		if c.Session == "" {
+			cfg = config.NewConfig(&uc)
+		} else {
+			path := filepath.Join(base, "session-"+c.Session+".json")
+			if err := os.WriteFile(path, c.Cfg, 0666); err != nil {
+				rt.Out(rt.M{"kind": "file", "id": c.ID, "infra": err.Error()})
+				continue
+			}
+			var err error
+			cfg, err = Server{FsConfig: path}.configAt("latest")
+			if err != nil {
+				rt.Out(rt.M{"kind": "file", "id": c.ID, "infra": "configAt: " + err.Error()})
+				continue
+			}
+		}
 		dir := filepath.Join(base, fmt.Sprintf("c%d", c.ID))
 		os.MkdirAll(dir, 0777)
 		names := map[string]int{}
